@@ -418,3 +418,99 @@ func (w *world) recoveryMoveScenario() error {
 	}
 	return nil
 }
+
+// chunkScenario: n messages (n on both sides of db.ChunkLimit = 1000; the statements over message lists run in chunks)
+// created by ONE connector batch of tiny messages, then
+//   STORE 1:* +FLAGS (\Deleted) -> every message shows \Deleted in a fresh session, also after kill + restart;
+//   STORE 1:* -FLAGS (\Deleted) -> none does;
+//   with no session connected the connector deletes all n messages; close + reopen: the start-up purge has to remove
+//   all n rows and all n cache files at once (checked before any session connects), the mailbox is empty.
+func (w *world) chunkScenario(n int) error {
+	res := w.ctx.Res
+	pfx := fmt.Sprintf("CH%d_", n)
+	canon := fmt.Sprintf("%d messages in one mailbox: STORE 1:* +FLAGS (\\Deleted); restart; STORE 1:* -FLAGS (\\Deleted); connector deletes all; close; reopen", n)
+	w.ctx.Current(canon, nil)
+	if err := w.mustPush(&upd{Kind: "MailboxCreated", MboxRID: pfx + "a", Name: pfx + "A"}); err != nil {
+		return err
+	}
+	var items []mcItem
+	for i := 0; i < n; i++ {
+		items = append(items, mcItem{RID: fmt.Sprintf("%sr%d", pfx, i), Marker: fmt.Sprintf("%sm%d", pfx, i), Mboxes: []string{pfx + "a"}})
+	}
+	if err := w.mustPush(&upd{Kind: "MessagesCreated", Items: items}); err != nil {
+		return err
+	}
+	res.Nontrivial(canon)
+	// number of messages of the mailbox and number of those showing \Deleted, in a fresh session
+	count := func() (int, int, []string, error) {
+		v, bad, err := viewOf(w.p, pfx)
+		if err != nil {
+			return 0, 0, nil, err
+		}
+		return strings.Count(v, "="+pfx+"m"), strings.Count(v, `[\deleted]`), bad, nil
+	}
+	expect := func(when string, wantAll, wantDel int) error {
+		all, del, bad, err := count()
+		if err != nil {
+			return err
+		}
+		res.Evaluations++
+		if all != wantAll || del != wantDel {
+			res.Fail("acknowledged-flags-not-kept | "+canon+" | "+when, fmt.Sprintf("%d messages listed, %d of them \\Deleted; acknowledged: %d messages, %d \\Deleted", all, del, wantAll, wantDel), nil)
+		}
+		if len(bad) > 0 {
+			res.Fail("listed-message-not-fetchable | "+canon+" | "+when, strings.Join(bad[:1], "; "), nil)
+		}
+		return nil
+	}
+	store := func(sign string) error {
+		c, err := w.p.login()
+		if err != nil {
+			return err
+		}
+		defer c.Close()
+		if err := cmds(c, "SELECT "+imapcQuote(pfx+"A"), "STORE 1:* "+sign+"FLAGS.SILENT (\\Deleted)"); err != nil {
+			return err
+		}
+		c.Cmd("LOGOUT")
+		return nil
+	}
+	if err := store("+"); err != nil {
+		return err
+	}
+	if err := expect("after STORE +FLAGS", n, n); err != nil {
+		return err
+	}
+	w.p.kill()
+	if err := w.restart(""); err != nil {
+		return err
+	}
+	if err := expect("after STORE +FLAGS and kill + restart", n, n); err != nil {
+		return err
+	}
+	if err := store("-"); err != nil {
+		return err
+	}
+	if err := expect("after STORE -FLAGS", n, 0); err != nil {
+		return err
+	}
+	// no session is connected: the rows stay (marked) until the next start
+	w.settle(true)
+	for i := 0; i < n; i++ {
+		if err := w.mustPush(&upd{Kind: "MessageDeleted", MsgRID: fmt.Sprintf("%sr%d", pfx, i)}); err != nil {
+			return err
+		}
+	}
+	w.cleanQuit("chunk scenario")
+	if err := w.restart(""); err != nil {
+		return err
+	}
+	res.Evaluations++
+	if lo, e := w.leftovers(); e == nil && lo != "" {
+		if len(lo) > 600 {
+			lo = lo[:600] + "..."
+		}
+		res.Fail("leftovers-after-restart | "+canon+" | start-up purge of all messages", lo, nil)
+	}
+	return expect("after the connector deleted all and close + reopen", 0, 0)
+}
